@@ -14,7 +14,7 @@ ASSUMPTIONS = [
 OUTSIDE = ['matrix sizes > 4 (lu_solve) / > 3 (pivoting routines: abs-comparisons fork over row orders)', 'IEEE rounding / conditioning']
 OPTS = {'thorough': {'max_paths': 15000}}
 BOUNDS = {'quick': 'lu_solve n<=3, lu_factor/inverse/determinant/pivot n<=3 (n=3 with partly concrete entries), 2-call histories n=2, helpers symbolic dims 2-3',
-          'thorough': 'lu_solve n<=4, pivoting routines fully symbolic n=3 (up to 5000 paths each); histories n=2 (n=3 histories exceed 15000 paths)'}
+          'thorough': 'lu_solve n<=4, pivoting routines fully symbolic n=3 (up to 5000 paths each); histories: n=2 both matrices symbolic, n=3 first matrix concrete (3 row-swap patterns) and second symbolic'}
 
 
 def _matrix(cx, n, name='a', concrete=None):
@@ -171,13 +171,20 @@ def h_collocation(cx, p, n, family):
     cx.eq('A.x==b', _matmul(A0, X), pts)
 
 
-def h_history(cx, n, second):
+FIRST3 = {'swap01': [[1, 2, 3], [4, 5, 6], [2, 1, 1]], 'swap02-12': [[1, 2, 3], [4, 5, 6], [7, 8, 10]], 'swap12': [[5, 1, 1], [1, 1, 2], [2, 4, 1]]}
+
+
+def h_history(cx, n, second, first=None):
     """results do not depend on which routines ran before (memoised identity matrix, caches)"""
     L = geo.M('linalg')
-    M1 = _matrix(cx, n, 'm')
-    # force a row swap in the first column
-    cx.assume(M1[1][0] > M1[0][0], check=False)
-    cx.assume(M1[0][0] > 0, check=False)
+    if first is None:
+        M1 = _matrix(cx, n, 'm')
+        # force a row swap in the first column
+        cx.assume(M1[1][0] > M1[0][0], check=False)
+        cx.assume(M1[0][0] > 0, check=False)
+    else:
+        # concrete first matrix (the memoised state a first call can leave behind depends on its row swaps only)
+        M1 = [cx.consts([F(x) for x in row]) for row in FIRST3[first]]
     L.matrix_pivot(M1)
     ident = L.matrix_identity(n)
     cx.eq('identity_after_pivot', ident, _ident(n))
@@ -309,6 +316,9 @@ def instances(tier):
         out.append(inst('collocation p%d n%d %s' % (p, n, famname), h_collocation, timeout=900, p=p, n=n, family=famname))
     for second in ('inverse', 'pivot', 'determinant', 'lu_factor'):
         out.append(inst('history pivot-then-%s n2' % second, h_history, timeout=900, n=2, second=second))
+        if not quick:
+            for first in sorted(FIRST3):
+                out.append(inst('history pivot[%s]-then-%s n3' % (first, second), h_history, timeout=2400, n=3, second=second, first=first))
     for dim in (2, 3):
         out.append(inst('vectors dim%d' % dim, h_vectors, dim=dim))
     out.append(inst('matrices 2x3x2', h_matrices, r=2, c=3, c2=2))
